@@ -22,7 +22,8 @@ RULE = (
     "cell with the corresponding scalar method (differential): pandas - target column == scalar results with None->NA, "
     "all other columns, index and source column untouched, bulk raises the scalar's exception type when a scalar call "
     "raises; files - re-parsed with csv: chosen column == scalar results with None->'', other columns, header and row "
-    "order preserved; if the call raises (strict failure, short or empty row) the bytes on disk are identical to before. "
+    "order preserved; if the call raises (it must when a scalar call raises; it may for an injected short or empty row) the "
+    "bytes on disk are identical to before; a tolerated faulty row must leave all well-formed rows converted in order. "
     "Non-trivial = a table with >=1 non-convertible cell, or a quoting-sensitive cell, or a failing row not at position 0; "
     "distinct by hash of the case."
 )
@@ -226,22 +227,35 @@ def check_file(case, stats: Stats) -> None:
         after = path.read_bytes()
     finally:
         path.unlink(missing_ok=True)
-    must_raise = fault_row is not None or first_fail is not None
-    if must_raise:
+    # A cell on which the scalar method raises must make the bulk call raise too (element-wise equality). A structurally
+    # faulty row (too short / empty) MAY make it raise - the statement only says what must hold IF it raises: the bytes on
+    # disk are untouched. An implementation that tolerates such rows is checked on the remaining rows instead.
+    if t == "exc" or first_fail is not None:
         stats.cls("file:raises")
         if t != "exc":
-            raise Violation(f"{case['func']}: a cell/row cannot be processed (fault={case['fault']}, failing scalar row={first_fail}) but the call returned")
+            raise Violation(f"{case['func']}: scalar {name} raises on the cell of row {first_fail} but the file operation returned")
         if after != before:
             raise Violation(f"{case['func']} raised {type(v).__name__} and left a modified file on disk (not atomic)")
+        if fault_row is None and first_fail is None:
+            raise Violation(f"{case['func']} raised {type(v).__name__}: {v} although every scalar {name} call returns")
         pos = fault_row if fault_row is not None else first_fail
         if first_fail is not None and fault_row is not None:
             pos = min(first_fail + (1 if fault_row <= first_fail else 0), fault_row)
         _classify(case, results, stats, failing_pos=pos)
         return
-    if t == "exc":
-        if after != before:
-            raise Violation(f"{case['func']} raised {type(v).__name__} and modified the file")
-        raise Violation(f"{case['func']} raised {type(v).__name__}: {v} although every scalar {name} call returns")
+    if fault_row is not None:
+        # tolerated structural fault: every well-formed row must still be converted, in order
+        stats.cls("file:fault-row-tolerated")
+        parsed = list(csv.reader(io.StringIO(after.decode("utf-8"), newline=""), delimiter=sep))
+        want_rows = ([[f"h{i}" for i in range(case["ncols"])]] if case["header"] else [])
+        for r, (_, val) in zip(rows, results):
+            rr = list(r)
+            rr[col] = val if val is not None else ""
+            want_rows.append(rr)
+        it = iter(parsed)
+        if not all(any(w == g for g in it) for w in want_rows):
+            raise Violation(f"{case['func']} tolerated a {case['fault']} but the well-formed rows are not all converted in order: file holds {parsed!r}, expected (as a subsequence) {want_rows!r}")
+        return
     parsed = list(csv.reader(io.StringIO(after.decode("utf-8"), newline=""), delimiter=sep))
     exp_rows = []
     if case["header"]:
